@@ -33,7 +33,9 @@ const (
 	opPUSHDATA1 = 0x4C
 	opPUSHDATA2 = 0x4D
 	opPUSH1     = 0x51
+	opJMPIF     = 0x63
 	opJMPIFNOT  = 0x64
+	opDEPTH     = 0x74
 	opRET       = 0x66
 	opAPPCALL   = 0x67
 	opSYSCALL   = 0x68
@@ -67,6 +69,11 @@ func (a *asm) syscall(name string) {
 }
 
 func (a *asm) appcall(addr common.Address) { a.b = append(append(a.b, opAPPCALL), addr[:]...) }
+
+func (a *asm) jmpif(label string) {
+	a.fix[len(a.b)] = label
+	a.b = append(a.b, opJMPIF, 0, 0)
+}
 
 func (a *asm) jmpifnot(label string) {
 	a.fix[len(a.b)] = label
@@ -137,6 +144,16 @@ func dispatcher(tag byte) []byte {
 	a := newAsm()
 	a.pushBytes([]byte{0xC4, tag})
 	a.op(opDROP)
+	// run as the entry script of a transaction (empty stack): Storage.Put(ownKey, ownVal) under
+	// the address of this very code, deployed or not
+	a.op(opDEPTH)
+	a.jmpif("dispatch")
+	a.pushBytes(ownVal)
+	a.pushBytes(ownKey)
+	a.syscall(sysGetContext)
+	a.syscall(sysPut)
+	a.op(opRET)
+	a.label("dispatch")
 	for sel := selPut; sel <= selMigratePut; sel++ {
 		next := fmt.Sprintf("L%d", sel)
 		a.op(opDUP)
@@ -165,6 +182,7 @@ type PCall struct {
 type PTx struct {
 	Deploy int     `json:"deploy"` // >= 0: deploy transaction of that dispatcher; -1: invoke
 	Calls  []PCall `json:"calls,omitempty"`
+	As     int     `json:"as,omitempty"` // j+1: the invoke script IS the code of dispatcher j (runs under its address without APPCALL)
 }
 
 type Program struct {
@@ -173,6 +191,11 @@ type Program struct {
 }
 
 const universe = 5
+
+var (
+	ownKey = []byte("own")
+	ownVal = []byte{0xEE}
+)
 
 type contractInfo struct {
 	code   []byte
@@ -262,24 +285,24 @@ func coqCalls(cs []contractInfo, calls []PCall, entry common.Address) []string {
 		cur := entry[:]
 		if c.Via >= 0 {
 			cur = cs[c.Via].addr[:]
-			out = append(out, fmt.Sprintf("CCall %s", hx.CoqBytes(cur)))
+			out = append(out, fmt.Sprintf("CCall %s", sh.B(cur)))
 		}
-		put := fmt.Sprintf("CPut %s %s %s", hx.CoqBytes(cur), hx.CoqBytes(hx.UnHex(c.K)), hx.CoqBytes(hx.UnHex(c.V)))
+		put := fmt.Sprintf("CPut %s %s %s", sh.B(cur), sh.B(hx.UnHex(c.K)), sh.B(hx.UnHex(c.V)))
 		t := cs[c.Target]
-		mig := fmt.Sprintf("CMigrate %s %s %s", hx.CoqBytes(cur), hx.CoqBytes(t.addr[:]), hx.CoqBytes(t.record))
+		mig := fmt.Sprintf("CMigrate %s %s %s", sh.B(cur), sh.B(t.addr[:]), sh.B(t.record))
 		switch c.Op {
 		case "put":
 			out = append(out, put)
 		case "del":
-			out = append(out, fmt.Sprintf("CDelete %s %s", hx.CoqBytes(cur), hx.CoqBytes(hx.UnHex(c.K))))
+			out = append(out, fmt.Sprintf("CDelete %s %s", sh.B(cur), sh.B(hx.UnHex(c.K))))
 		case "migrate":
 			out = append(out, mig)
 		case "destroy":
-			out = append(out, fmt.Sprintf("CDestroy %s", hx.CoqBytes(cur)))
+			out = append(out, fmt.Sprintf("CDestroy %s", sh.B(cur)))
 		case "create":
-			out = append(out, fmt.Sprintf("CCreate %s %s", hx.CoqBytes(t.addr[:]), hx.CoqBytes(t.record)))
+			out = append(out, fmt.Sprintf("CCreate %s %s", sh.B(t.addr[:]), sh.B(t.record)))
 		case "destroy+put":
-			out = append(out, fmt.Sprintf("CDestroy %s", hx.CoqBytes(cur)), put)
+			out = append(out, fmt.Sprintf("CDestroy %s", sh.B(cur)), put)
 		case "migrate+put":
 			out = append(out, mig, put)
 		}
@@ -324,7 +347,7 @@ func txTouches(t PTx, j int) bool {
 				return true
 			}
 		case "migrate", "migrate+put":
-			if c.Target == j || (c.Op == "migrate+put" && c.Via == j) {
+			if c.Target == j {
 				return true
 			}
 		}
@@ -348,6 +371,7 @@ func doChain(c *hx.Ctx, p *Program) {
 	c.Eval()
 	var coqBlocks []string
 	dead := make([]bool, len(cs))
+	wrote := make([]bool, len(cs))
 	prev := observeAddrs(k, cs)
 	nonce := uint32(1000)
 	for bi, blk := range p.Blocks {
@@ -363,8 +387,13 @@ func doChain(c *hx.Ctx, p *Program) {
 				}
 				mtx.Nonce = nonce
 				mtx.GasLimit = chainGasLimit
-				coqTxs = append(coqTxs, fmt.Sprintf("TDeploy %s %s", hx.CoqBytes(cs[t.Deploy].addr[:]), hx.CoqBytes(cs[t.Deploy].record)))
+				coqTxs = append(coqTxs, fmt.Sprintf("TDeploy %s %s", sh.B(cs[t.Deploy].addr[:]), sh.B(cs[t.Deploy].record)))
 				c.Count("chain-tx:deploy")
+			} else if t.As > 0 {
+				j := t.As - 1
+				mtx = k.InvokeTx(cs[j].code, 0, chainGasLimit)
+				coqTxs = append(coqTxs, fmt.Sprintf("TInvoke [CPut %s %s %s]", sh.B(cs[j].addr[:]), sh.B(ownKey), sh.B(ownVal)))
+				c.Count("chain-tx:contract-code-as-entry-script")
 			} else {
 				code := script(cs, t.Calls, nonce)
 				mtx = k.InvokeTx(code, 0, chainGasLimit)
@@ -414,14 +443,44 @@ func doChain(c *hx.Ctx, p *Program) {
 		}
 		cur := observeAddrs(k, cs)
 		// ---- oracle on the ledger ----
+		// a committed transaction in which code running under address j called Storage.Put after
+		// (or without) the contract's existence: the known defect of checkStorageContext
+		for i, t := range blk {
+			if !ok[i] || t.Deploy >= 0 {
+				continue
+			}
+			if t.As > 0 {
+				wrote[t.As-1] = true
+			}
+			for _, cl := range t.Calls {
+				if cl.Via >= 0 && (cl.Op == "destroy+put" || cl.Op == "migrate+put") {
+					wrote[cl.Via] = true
+				}
+			}
+		}
 		for j := range cs {
+			if cur[j].destroyed && len(cur[j].listing) != 0 {
+				if wrote[j] {
+					c.Fail("storage:write-through-missing-context", "a destroyed or migrated-away address owns no storage (Storage.Put went through the context of a destroyed / missing contract)",
+						p, map[string]interface{}{"block": bi, "contract": j, "storage": kvsJSON(cur[j].listing)}, nil)
+				} else {
+					c.Fail("destroyed:storage-came-back", "a destroyed or migrated-away address owns no storage",
+						p, map[string]interface{}{"block": bi, "contract": j, "storage": kvsJSON(cur[j].listing)}, nil)
+				}
+			}
 			if dead[j] {
-				if !cur[j].destroyed || cur[j].deployed || len(cur[j].listing) != 0 {
-					c.Fail("destroyed:came-back", "a destroyed or migrated-away address stays destroyed, without record and storage",
-						p, map[string]interface{}{"block": bi, "contract": j, "destroyed": cur[j].destroyed, "deployed": cur[j].deployed, "storage": kvsJSON(cur[j].listing)}, nil)
+				if !cur[j].destroyed || cur[j].deployed {
+					c.Fail("destroyed:came-back", "a destroyed or migrated-away address stays destroyed and without record",
+						p, map[string]interface{}{"block": bi, "contract": j, "destroyed": cur[j].destroyed, "deployed": cur[j].deployed}, nil)
 				}
 				for i, t := range blk {
-					if ok[i] && txTouches(t, j) {
+					if !ok[i] {
+						continue
+					}
+					if t.As-1 == j {
+						c.Fail("storage:write-through-missing-context", "no transaction that writes under a destroyed address succeeds (the contract's code sent as an invoke script runs under the destroyed address)",
+							p, map[string]interface{}{"block": bi, "tx": i, "contract": j}, nil)
+					} else if txTouches(t, j) {
 						cl := "destroyed:write-accepted"
 						if t.Deploy == j {
 							cl = "destroyed:redeploy-accepted"
@@ -480,7 +539,7 @@ func doChain(c *hx.Ctx, p *Program) {
 			if len(cur[j].listing) > 0 {
 				c.Count("chain-storage-entries:" + bucket(len(cur[j].listing)))
 			}
-			obs = append(obs, fmt.Sprintf("AObs %s %s %s %s", hx.CoqBytes(cs[j].addr[:]), hx.CoqOpt(cur[j].deployed, hx.CoqBytes(cur[j].rec)),
+			obs = append(obs, fmt.Sprintf("AObs %s %s %s %s", sh.B(cs[j].addr[:]), hx.CoqOpt(cur[j].deployed, sh.B(cur[j].rec)),
 				hx.CoqBool(cur[j].destroyed), coqKvs(cur[j].listing)))
 		}
 		coqBlocks = append(coqBlocks, fmt.Sprintf("(mkBlock %d %s, %s, %s)", b.Header.Height, hx.CoqList(coqTxs), hx.CoqList(outs), hx.CoqList(obs)))
@@ -550,8 +609,9 @@ func genProgram(c *hx.Ctx) *Program {
 		if c.Intn(3) == 0 { // a block with one single-call transaction (the ledger oracle looks at these)
 			call := genCall(c, deployed)
 			call.Via = c.Intn(3)
-			if c.Intn(2) == 0 {
-				call.Op = []string{"migrate", "destroy"}[c.Intn(2)]
+			if c.Intn(3) != 0 {
+				call.Op = []string{"migrate", "migrate", "destroy"}[c.Intn(3)]
+				call.Target = 2 + c.Intn(3) // mostly not yet deployed
 			}
 			// same transaction: new entries still pending in the cache when the loop runs
 			blk = append(blk, PTx{Deploy: -1, Calls: []PCall{call}})
@@ -559,6 +619,10 @@ func genProgram(c *hx.Ctx) *Program {
 			for n := 1 + c.Intn(4); n > 0; n-- {
 				if c.Intn(5) == 0 {
 					blk = append(blk, PTx{Deploy: c.Intn(universe)})
+					continue
+				}
+				if c.Intn(12) == 0 {
+					blk = append(blk, PTx{Deploy: -1, As: 1 + c.Intn(universe)})
 					continue
 				}
 				var calls []PCall
@@ -595,6 +659,8 @@ func scriptedProgram() *Program {
 		{inv(PCall{Via: 3, Op: "migrate", Target: 4})},
 		{inv(PCall{Via: 1, Op: "migrate", Target: 4})},     // refused: 4 is deployed
 		{{Deploy: 2}, {Deploy: 3}, inv(put(4, "k", "9"))},
+		{{Deploy: -1, As: 3}},                              // the code of destroyed contract 2 sent as an invoke script: writes under 2
+		{{Deploy: -1, As: 5}},                              // ... and of the live contract 4
 	}}
 }
 
